@@ -114,6 +114,7 @@ type SpecDB struct {
 	Callbacks map[string]*FuncSpec
 	Methods   map[string]*FuncSpec
 	Ghosts    map[string]*GhostFn
+	SetterOnly map[string]bool
 	Axioms    []*Clause
 	Events    []*EventDecl
 	Guarded   []GuardDecl
@@ -137,13 +138,13 @@ type SpecDef struct {
 
 func NewSpecDB() *SpecDB {
 	return &SpecDB{Funcs: map[string]*FuncSpec{}, Callbacks: map[string]*FuncSpec{}, Methods: map[string]*FuncSpec{},
-		Ghosts: map[string]*GhostFn{}, Immutable: map[string]bool{}, Levels: map[string]int{}, Defs: map[string]*SpecDef{}, InitWriters: map[string]bool{}, GhostHeaps: map[string]*GhostHeap{}, ImmutableProps: map[string][]string{}, Atomic: map[string][]string{}}
+		Ghosts: map[string]*GhostFn{}, SetterOnly: map[string]bool{}, Immutable: map[string]bool{}, Levels: map[string]int{}, Defs: map[string]*SpecDef{}, InitWriters: map[string]bool{}, GhostHeaps: map[string]*GhostHeap{}, ImmutableProps: map[string][]string{}, Atomic: map[string][]string{}}
 }
 
 var keywords = map[string]bool{"func": true, "callback": true, "method": true, "props": true, "requires": true,
 	"ensures": true, "onpanic": true, "loop": true, "at": true, "maypanic": true, "effect": true, "trusted": true,
 	"ghost": true, "axiom": true, "event": true, "guarded": true, "immutable": true, "lockinv": true, "level": true,
-	"inline": true, "def": true, "unlocked": true, "cover": true, "alias": true, "initwriter": true, "atomic": true, "effectstruct": true, "chaninv": true, "fact": true, "ghostheap": true, "modifies": true, "iterate": true}
+	"inline": true, "def": true, "unlocked": true, "cover": true, "alias": true, "initwriter": true, "setteronly": true, "atomic": true, "effectstruct": true, "chaninv": true, "fact": true, "ghostheap": true, "modifies": true, "iterate": true}
 
 var reLabel = regexp.MustCompile(`^\[([^\]]+)\]\s*`)
 var reProps = regexp.MustCompile(`^\{([^}]*)\}\s*`)
@@ -412,6 +413,10 @@ func (db *SpecDB) LoadFile(path string) error {
 		case "initwriter":
 			for _, f := range strings.Fields(strings.ReplaceAll(rest, ",", " ")) {
 				db.InitWriters[f] = true
+			}
+		case "setteronly":
+			for _, f := range strings.Fields(strings.ReplaceAll(rest, ",", " ")) {
+				db.SetterOnly[f] = true
 			}
 		case "level":
 			a, b := splitWord(rest)
